@@ -35,7 +35,8 @@ Lemma ov_deliver s n o data : ov s (fst (deliver E s n o data)).
 Proof.
   unfold deliver. destruct data as [|b d]; [reflexivity|]. destruct (os_kind o).
   - destruct (os_off o); reflexivity.
-  - set (s1 := match c_sink (e_spec E n) with Some t => _ | None => s end).
+  - destruct (c_drain (e_spec E n)); [|cbn [fst]; destruct (is_synced E s n); reflexivity].
+    set (s1 := match c_sink (e_spec E n) with Some t => _ | None => s end).
     assert (H1 : ov s s1) by (subst s1; destruct (c_sink _); reflexivity).
     destruct (c_echo _); auto. pose proof (ov_child_out s1 (os_cgfail o) (b :: d)) as H2.
     destruct (child_out _ _ _ _). cbn [fst] in *. unfold ov in *. congruence.
@@ -51,7 +52,10 @@ Proof.
 Qed.
 
 Lemma ov_flush_named s n o : ov s (flush_named E s n o).
-Proof. unfold flush_named. pose proof (ov_flush_ostream s n o) as H. destruct (flush_ostream _ _ _ _). auto. Qed.
+Proof.
+  unfold flush_named. pose proof (ov_flush_ostream s n o) as H. destruct (flush_ostream _ _ _ _) as [s1 o1]. cbn [fst] in H. cbv zeta.
+  unfold ov in *. destruct (os_err o1); [unfold print_errorf; rewrite ov_flush_stdout|]; cbn; auto.
+Qed.
 
 Lemma ov_flush_streams ns : forall s, ov s (flush_streams E s ns).
 Proof.
@@ -112,9 +116,18 @@ Qed.
 Lemma ov_scan_stream s n i : ov s (scan_stream s n i).
 Proof. unfold scan_stream. destruct (is_rest i); [reflexivity|]. destruct (scan_line _ _). reflexivity. Qed.
 
+Lemma ov_getline_file s n : ov s (fst (getline_file E s n)).
+Proof.
+  unfold getline_file. set (s0 := if sink_busy E s n then set_unmod s else s).
+  assert (H0 : ov s s0) by (subst s0; apply ov_if_unmod). clearbody s0. unfold ov in *. rewrite <- H0.
+  destruct (amem n (st_outs s0)); [reflexivity|].
+  destruct (alookup n (st_ins s0)) as [i|]; cbn [fst]; [apply ov_scan_stream|].
+  destruct (alookup n (st_fs s0)); cbn [fst]; [|reflexivity]. rewrite ov_scan_stream. reflexivity.
+Qed.
+
 Lemma ov_step s o : ov s (fst (step E s o)).
 Proof.
-  destruct o as [d ps|n|[n|]|c|n|c| |code|]; cbn [step].
+  destruct o as [d ps|n|[n|]|c|n|c| |code| |n]; cbn [step].
   - pose proof (ov_get_output_stream s d) as H1. destruct (get_output_stream E s d) as [s1 [[|n]|]]; cbn [fst] in *; auto.
     + pose proof (ov_write_stdout s1 ps) as H2. destruct (write_stdout E s1 ps) as [s2 [|]]; cbn [fst] in *; unfold ov in *; congruence.
     + destruct (alookup n (st_outs s1)) as [os|]; cbn [fst]; auto.
@@ -135,9 +148,7 @@ Proof.
     pose proof (ov_child_out s2 cg (c_stdout (e_spec E c))) as H3. destruct (child_out E s2 cg _) as [s3 ok3]. cbn [fst] in *.
     pose proof (ov_child_eof s3 (negb ok3)) as H4. destruct (child_eof E s3 _) as [s4 ok4]. cbn [fst] in *.
     destruct (wait_result _ _) as [code err]. cbn [fst]. unfold ov in *. cbn [st_overlap add_obs]. rewrite ov_if_print_errorf. congruence.
-  - destruct (amem n (st_outs s)); [reflexivity|].
-    destruct (alookup n (st_ins s)) as [i|]; cbn [fst]; [apply ov_scan_stream|].
-    destruct (alookup n (st_fs s)); cbn [fst]; [|reflexivity]. unfold ov. rewrite ov_scan_stream. reflexivity.
+  - apply ov_getline_file.
   - destruct (amem c (st_outs s)); [reflexivity|].
     destruct (alookup c (st_ins s)) as [i|]; cbn [fst]; [apply ov_scan_stream|].
     pose proof (ov_flush_stdout s) as H0. fold (flush_out_err E s) in H0.
@@ -146,6 +157,9 @@ Proof.
   - cbn [fst]. unfold ov. cbn. apply ov_flush_stdout.
   - reflexivity.
   - reflexivity.
+  - destruct (amem n (st_outs s)); [reflexivity|].
+    destruct (negb (amem n (st_ins s)) && negb (amem n (st_fs s))); [reflexivity|].
+    unfold ov. rewrite ov_getline_file. reflexivity.
 Qed.
 
 Lemma ov_exec ops : forall s, ov s (fst (exec E s ops)).
@@ -212,7 +226,9 @@ Lemma keep_deliver s n o data : keep s (fst (deliver E s n o data)).
 Proof.
   unfold deliver. destruct data as [|b d]; [apply keep_refl|]. destruct (os_kind o).
   - destruct (os_off o); apply keep_fields; auto.
-  - destruct (Hsilent n) as (_ & ->). cbn [fst]. destruct (c_sink _); [apply keep_fields; auto|apply keep_refl].
+  - destruct (Hsilent n) as (_ & ->). destruct (c_drain (e_spec E n)); cbn [fst].
+    + destruct (c_sink _); [apply keep_fields; auto|apply keep_refl].
+    + destruct (is_synced E s n); [apply keep_refl|apply keep_fields; auto].
 Qed.
 
 Lemma keep_flush_ostream s n o : keep s (fst (flush_ostream E s n o)).
@@ -224,10 +240,13 @@ Proof.
   destruct (deliver _ _ _ _ _). auto.
 Qed.
 
+Lemma print_errorf_id' s : print_errorf E s = s.
+Proof. unfold print_errorf, flush_stdout. destruct Hmode as [-> | ->]; auto. Qed.
+
 Lemma keep_flush_named s n o : keep s (flush_named E s n o).
 Proof.
   unfold flush_named. pose proof (keep_flush_ostream s n o) as H. destruct (flush_ostream _ _ _ _) as [s1 o1]. cbn [fst] in H.
-  eapply keep_trans; eauto. apply keep_fields; auto.
+  cbv zeta. rewrite print_errorf_id'. apply (keep_trans _ s1); auto. destruct (os_err o1); apply keep_fields; auto.
 Qed.
 
 Lemma keep_flush_streams ns : forall s, keep s (flush_streams E s ns).
@@ -326,9 +345,19 @@ Proof.
      unfold usink; cbn [st_sink st_log set_out add_log own_stdout]; rewrite B1, B in *; auto).
 Qed.
 
+Lemma keep_getline_file s n : keep s (fst (getline_file E s n)).
+Proof.
+  unfold getline_file. set (s0 := if sink_busy E s n then set_unmod s else s).
+  assert (H0 : keep s s0) by (subst s0; apply keep_if_unmod). clearbody s0. apply (keep_trans _ s0); auto.
+  destruct (amem n (st_outs s0)); [apply keep_refl|].
+  destruct (alookup n (st_ins s0)) as [i|]; cbn [fst]; [apply keep_scan_stream|].
+  destruct (alookup n (st_fs s0)); cbn [fst]; [|apply keep_fields; auto].
+  eapply keep_trans; [|apply keep_scan_stream]. apply keep_fields; auto.
+Qed.
+
 Lemma step_usink k s o s' oc : usink k s -> step E s o = (s', oc) -> oc <> Fail -> usink k s'.
 Proof.
-  intros Hu. destruct o as [d ps|n|[n|]|c|n|c| |code|]; cbn [step].
+  intros Hu. destruct o as [d ps|n|[n|]|c|n|c| |code| |n]; cbn [step].
   - pose proof (keep_get_output_stream s d) as H1. destruct (get_output_stream E s d) as [s1 [[|n]|]]; cbn [fst] in *.
     + destruct (write_stdout E s1 ps) as [s2 [|]] eqn:Ew; intros H Hoc; injection H as <- <-; [|congruence].
       apply (write_stdout_usink k s1 ps s2); auto. eapply usink_keep; eauto.
@@ -365,11 +394,7 @@ Proof.
     destruct (wait_result _ _) as [code err]. intros HH _; injection HH as <- <-.
     eapply usink_keep; [|exact Hu]. assert (He : forall x, (if err then print_errorf E x else x) = x) by (intros; destruct err; auto using print_errorf_id).
     rewrite He. apply (keep_trans _ s1); [exact H|]. apply (keep_trans _ s2); [exact H2|]. apply keep_fields; auto.
-  - destruct (amem n (st_outs s)); [intros H Hoc; injection H as <- <-; congruence|].
-    destruct (alookup n (st_ins s)) as [i|]; [intros H _; injection H as <- <-; eapply usink_keep; [apply keep_scan_stream|auto]|].
-    destruct (alookup n (st_fs s)); intros H _; injection H as <- <-; (eapply usink_keep; [|exact Hu]).
-    + eapply keep_trans; [|apply keep_scan_stream]. apply keep_fields; auto.
-    + apply keep_fields; auto.
+  - intros H _. pose proof (keep_getline_file s n) as K. rewrite H in K. cbn [fst] in K. eapply usink_keep; eauto.
   - destruct (amem c (st_outs s)); [intros H Hoc; injection H as <- <-; congruence|].
     destruct (alookup c (st_ins s)) as [i|]; [intros H _; injection H as <- <-; eapply usink_keep; [apply keep_scan_stream|auto]|].
     rewrite flush_out_err_id.
@@ -379,6 +404,10 @@ Proof.
   - rewrite flush_out_err_id. intros H _; injection H as <- <-. eapply usink_keep; [apply keep_fields; auto|auto].
   - intros H _; injection H as <- <-. auto.
   - intros H Hoc; injection H as <- <-. congruence.
+  - destruct (amem n (st_outs s)); [intros H Hoc; injection H as <- <-; congruence|].
+    destruct (negb (amem n (st_ins s)) && negb (amem n (st_fs s))); [intros H _; injection H as <- <-; eapply usink_keep; [apply keep_fields; auto|auto]|].
+    intros H _. pose proof (keep_getline_file (add_synced s n) n) as K. rewrite H in K. cbn [fst] in K.
+    eapply usink_keep; [|exact Hu]. eapply keep_trans; [|exact K]. apply keep_fields; auto.
 Qed.
 
 Lemma exec_usink k ops : forall s s' r, usink k s -> exec E s ops = (s', r) -> r <> RError -> usink k s'.
